@@ -124,6 +124,21 @@ func CanDescend(v any) bool {
 	}
 }
 
+// StringKeyedMap copies a map whose keys are of a string kind (map[string]string,
+// type H map[string]any, ...) into a map[string]any. The second result is false
+// for everything else, a nil map included.
+func StringKeyedMap(data any) (map[string]any, bool) {
+	rv := reflect.ValueOf(data)
+	if rv.Kind() != reflect.Map || rv.Type().Key().Kind() != reflect.String || rv.IsNil() {
+		return nil, false
+	}
+	m := make(map[string]any, rv.Len())
+	for it := rv.MapRange(); it.Next(); {
+		m[it.Key().String()] = it.Value().Interface()
+	}
+	return m, true
+}
+
 // StructToMap converts a struct to a map using JSON tags for keys.
 // Nested structs are recursively converted to maps as well.
 func StructToMap(data any) map[string]any {
